@@ -373,6 +373,42 @@ class World:
             f = self._factor(x, view, a['p'], chem)
             x.set_flow(a['v'] * f * conv, a['units'], self._key(x, a['p'], chem))
             return {}
+        if op == 'measured':
+            if a['what'] == 'view_copy':
+                # bulk write of another stream's mass / volume view object: positions are taken as they are
+                y = self.s[a['y']]
+                src = np.asarray(getattr(y, a['view']), float).copy()
+                n = min(len(src), len(np.asarray(getattr(x, a['view']), float)))
+                if a['via'] == 'attr':
+                    setattr(x, a['view'], getattr(y, a['view'])) if len(src) == len(x.mol) else None
+                else:
+                    if len(src) == len(x.mol):
+                        getattr(x, 'i' + a['view'])[...] = getattr(y, a['view'])
+                if len(src) != len(x.mol):
+                    return dict(diff=0, note='different sizes')
+                got = np.asarray(getattr(x, a['view']), float)
+                return dict(diff=max([self._rel(g, w) for g, w in zip(got, src)] + [0]))
+            if a['what'] == 'reset_flow':
+                if isinstance(x, tmo.MultiStream):
+                    return dict(diff=0, note='multi-phase: other call signature')
+                units = a['units']
+                view, conv = self.UNITS[units]
+                chem = x.chemicals.IDs[0]
+                x.reset_flow(phase=a['p'], units=units, **{chem: a['v']})
+                d1 = self._rel(x.get_flow(units, chem), a['v'])
+                want = float(x.imol[chem]) * self._factor(x, view, a['p'], chem) * conv
+                return dict(diff=max(d1, self._rel(a['v'], want)))
+            if a['what'] == 'construct_total':
+                # a new stream built with flows and a total flow given in some unit of measure: the total reads back in that unit
+                units = a['units']
+                th = x.thermo
+                ids = x.chemicals.IDs
+                if a['k'] == 'm':
+                    new = tmo.MultiStream(None, thermo=th, units=units, total_flow=a['v'], l=[(ids[0], 1.), (ids[1], 3.)], g=[(ids[0], 2.)])
+                else:
+                    new = tmo.Stream(None, thermo=th, units=units, total_flow=a['v'], **{ids[0]: 1., ids[1]: 3.})
+                return dict(diff=self._rel(new.get_total_flow(units), a['v']))
+            raise KeyError(a['what'])
         if op == 'ubad':
             how = a.get('how', 'get_flow')
             if how == 'get_flow':
@@ -505,7 +541,7 @@ class World:
             S[a['d']].link_with(S[a['x']], flow=a['flow'], phase=a['phase'], TP=a['TP'])
         elif op == 'unlink':
             S[a['x']].unlink()
-        elif op in ('vget', 'vset', 'tget', 'tset', 'uget', 'uset', 'ubad'):
+        elif op in ('vget', 'vset', 'tget', 'tset', 'uget', 'uset', 'ubad', 'measured'):
             return self.view_ops(op, a)
         elif op == 'reset_thermo':
             S[a['x']]._reset_thermo(thermo(a['pkg']))
@@ -533,6 +569,8 @@ def random_op(universe, rng, st, ops):
     names = universe['names']
     nc = universe['nc']
     op = rng.choice(ops)
+    if op == 'measured':          # only generated by directed schedules (it ends a history)
+        op = 'vget'
     x = rng.choice(names)
     y = rng.choice(names)
     z = rng.choice(names)
